@@ -1,6 +1,7 @@
 """C20: manifests name only existing files and cover what generated code needs.  Theorem C20_holds is
 over facts regenerated every run (gen/ManifestFacts.v); this module re-evaluates the same conditions
 in python on the same data to name the failing entry when the theorem no longer checks."""
+import os
 from harness import common, facts_manifest
 
 ID = "C20"
@@ -14,16 +15,15 @@ def run(tier, seed, rep, replay=None):
     gen = facts_manifest.generated_by_examples()
     defs, edges = facts_manifest.hw_modules()
     gen_names = {(n, f) for n, _, fs, _ in gen for f in fs}
+    gen_dirs = {os.path.dirname(f) for _, f in gen_names}
     evaluations = 0
-    import os
     for atoms, p in bfiles:
         evaluations += 1
         ok = p in tree
-        if not ok and p.startswith("generated/"):
-            f = p[len("generated/"):]
-            ok = any(g == f and n in atoms for n, g in gen_names)
+        if not ok and not os.path.isabs(p) and os.path.dirname(p) in gen_dirs | {"generated"}:
+            ok = any(g == p and n in atoms for n, g in gen_names)
             if not ok:
-                rep.fail(f"C20:generated-name:Bender.yml:{p}", f"Bender.yml target {atoms} lists {p}, but floogen writes "
+                rep.fail(f"C20:generated-name:Bender.yml:{p}", f"Bender.yml target {atoms} lists {p}, but `make sources` writes "
                          f"{sorted(g for n, g in gen_names if n in atoms) or sorted(g for _, g in gen_names)} for the shipped "
                          f"example(s) of that target", {"manifest": "Bender.yml", "entry": p, "target": atoms})
                 continue
